@@ -72,7 +72,13 @@ class Device(object):
         self.host_maxdata = None
         self.maxdata = cfg.get('maxdata', MAXDATA)
         self.remote_ids = list(cfg.get('remote_ids', DEFAULT_REMOTE_IDS))
-        self.auth = env.make_auth(self) if getattr(env, 'make_auth', None) else NoAuth()
+        spec = (env.session_over or {}).get('auth') or cfg.get('auth')
+        if spec:
+            from .auth import Auth
+            self.auth = Auth(self, spec, env.ch)
+            env.auths.append(self.auth)
+        else:
+            self.auth = NoAuth()
         self.fs = env.fs
         self.frames_out = 0
         self.stray_host = 0
